@@ -180,6 +180,7 @@ type State struct {
 	nalloc  int           // number of objects moved into symbolic regions on this path
 	wits    []*Term       // witnesses of the existential clauses assumed on this path
 	cutMark int           // cell counter when the innermost cut loop was entered (objects older than that are not fresh inside it)
+	focusNoDefs bool      // a focused proof state without the definitional axioms
 	focusSchemas bool     // a focused proof state that keeps the instances of quantified preconditions
 	reqFacts []*Term      // the contract's unquantified preconditions (for focus requires)
 	logMark int   // index into log of the most recent loop cut (events before it belong to earlier iterations)
@@ -212,6 +213,7 @@ func (s *State) fork() *State {
 		cutMark: s.cutMark,
 		wits:    s.wits[:len(s.wits):len(s.wits)],
 		focusSchemas: s.focusSchemas,
+		focusNoDefs: s.focusNoDefs,
 		reqFacts: s.reqFacts[:len(s.reqFacts):len(s.reqFacts)],
 	}
 	for k, v := range s.store {
